@@ -191,3 +191,35 @@ func init() {
 			}
 		}})
 }
+
+func init() {
+	register(&Rule{ID: "ANCHOR.acc", Min: 2, Text: "the liveness-filtered accessors really filter: RGATreeList.FindPrevCreatedAt and LastLiveCreatedAt leave their backward walk — and so return a node's position identity — only on an edge where the node is the dummy head or node.IsRemoved() is false (FindPrevCreatedAt additionally skips slots that hold no element)",
+		Run: func(x *Ctx) {
+			isRemoved := x.P.FnObj(crdtPkg + ".(*RGATreeListNode).IsRemoved")
+			head := x.P.Field(crdtPkg + ".RGATreeList.dummyHead")
+			if isRemoved == nil || head == nil {
+				x.C.Unresolved(x.id(), "RGATreeListNode.IsRemoved / RGATreeList.dummyHead")
+				return
+			}
+			nodeT := x.P.Named(crdtPkg + ".RGATreeListNode")
+			anyNode := VP{"node", func(v ssa.Value) bool { return isNamed(v.Type(), nodeT) }}
+			for _, name := range []string{"FindPrevCreatedAt", "LastLiveCreatedAt"} {
+				fn := x.fn(crdtPkg + ".(*RGATreeList)." + name)
+				if fn == nil {
+					continue
+				}
+				n := 0
+				for _, r := range prog.Returns(fn) {
+					if len(r.Results) > 1 && !prog.ReturnsNilError(r) {
+						continue
+					}
+					n++
+					x.guardedSite(fmt.Sprintf("func=%s return#%d live-or-head", prog.FnName(fn), n), r,
+						[]Cmp{isFalse(vpCall(isRemoved)), {L: vpField(head), R: anyNode, Want: EQ}}, nil)
+				}
+				if n == 0 {
+					x.fail("func="+prog.FnName(fn)+" returns", x.fpos(fn), "no success return")
+				}
+			}
+		}})
+}
